@@ -167,3 +167,37 @@ def read_only_arguments(ctx, chk, rule, funcs, why):
                    "arguments are read, never changed", key="%s|in-place" % qual)
     chk.count("functions examined for in-place changes of their array arguments (expected 0 changes)", n_f)
     return n_f
+
+
+def read_only_arguments_in_modules(ctx, chk, rule, modules, why, out_params=()):
+    """The same rule over every function and method of `modules` (so that a new method is read too); zero instances on the
+    pinned tree, the positive control of `control()`."""
+    if not control():
+        chk.errors.append("%s positive control (in-place change of an argument) did not match" % rule)
+    n_f = 0
+    for modname in modules:
+        mod = ctx.repo.modules.get(modname)
+        if mod is None:
+            continue
+        raw = ast.parse(mod.src)
+        for n in ast.walk(raw):
+            for c in ast.iter_child_nodes(n):
+                c.parent = n
+        fdefs = []
+        for n in raw.body:
+            if isinstance(n, ast.FunctionDef):
+                fdefs.append((n.name, n))
+            elif isinstance(n, ast.ClassDef):
+                for m in n.body:
+                    if isinstance(m, ast.FunctionDef):
+                        fdefs.append(("%s.%s" % (n.name, m.name), m))
+        for qual, fnode in fdefs:
+            n_f += 1
+            for node, alias, p, text in inplace_changes(fnode):
+                if p in ("self", "cls") or (qual, p) in out_params:
+                    continue          # out_params: buffers the caller allocates for the callee to fill (one named symbol each)
+                chk.ob(rule, False, (mod.relpath, qual, node.lineno), ("%s, which may be the caller's `%s`" % (text, p)) if alias != p else text,
+                       "arguments are read, never changed: a fresh array (np.array(%s), %s.copy()) before any in-place change" % (p, p),
+                       key="%s|in-place|%s" % (qual, p), why=why, local=True)
+    chk.count("%s functions and methods examined for in-place changes of their array arguments (expected 0 changes)" % rule, n_f)
+    return n_f
